@@ -30,6 +30,11 @@ class ConstraintDistScopeModel(ConstraintInlineScopeModel):
     def next_target_range(self, randstate : RandState) -> int:
         """Select the next target range from the weight list"""
 
+        if self.total_weight <= 0:
+            # No entry has a non-zero weight: there is nothing to select
+            self.target_range = 0
+            return self.target_range
+
         seed_v = randstate.rng.randint(1, self.total_weight)
 
         # Find the first range
